@@ -23,7 +23,10 @@ type c16Case struct {
 	Store   string       `json:"store"` // reference | example
 	Initial [][]string   `json:"initial"`
 	Ops     [][][]string `json:"ops"` // per client: its commands
-	Choices []int        `json:"choices,omitempty"`
+	// Password: the server requires a password and every client (and the final
+	// reader) first sends AUTH; the AUTH exchanges are not part of the history.
+	Password bool  `json:"password,omitempty"`
+	Choices  []int `json:"choices,omitempty"`
 }
 
 type c16Op struct {
@@ -84,7 +87,14 @@ type c16World struct {
 
 func c16NewWorld(cs c16Case) *c16World {
 	w := &c16World{cs: cs}
-	w.mc = &mcWorld{Scripts: cs.Ops}
+	scripts := cs.Ops
+	if cs.Password {
+		scripts = nil
+		for _, ops := range cs.Ops {
+			scripts = append(scripts, append([][]string{{"AUTH", c16Pass}}, ops...))
+		}
+	}
+	w.mc = &mcWorld{Scripts: scripts}
 	st := model.New()
 	for _, c := range cs.Initial {
 		st.Apply(c)
@@ -106,9 +116,14 @@ func c16NewWorld(cs c16Case) *c16World {
 			store.Before = func(op string) { vrt.Yield("primitive " + op) }
 			m.Srv = srv.NewServer(store)
 		}
+		if cs.Password {
+			m.Srv.SetRequirePass(c16Pass)
+		}
 	}
 	return w
 }
+
+const c16Pass = "Secret1"
 
 func c16Explorer(cs c16Case, bound int) *sched.Explorer {
 	x := &sched.Explorer{Bound: bound}
@@ -121,6 +136,12 @@ func c16Explorer(cs c16Case, bound int) *sched.Explorer {
 		// invocation = when the client starts sending, response = when it has the reply
 		inner := w.mc.body
 		w.mc.AfterReply = func(ci, idx int, o sched.Outcome) {
+			if cs.Password {
+				if idx == 0 {
+					return // the AUTH exchange
+				}
+				idx--
+			}
 			out := "<" + o.Status + ">"
 			if o.Status == "ok" {
 				out = o.Reply.String()
@@ -128,7 +149,15 @@ func c16Explorer(cs c16Case, bound int) *sched.Explorer {
 			start := calls[ci][idx]
 			w.hist = append(w.hist, porcupine.Operation{ClientId: ci, Input: c16Op{Args: cs.Ops[ci][idx]}, Call: start, Output: out, Return: vrt.Step()})
 		}
-		w.mc.BeforeSend = func(ci, idx int) { calls[ci][idx] = vrt.Step() }
+		w.mc.BeforeSend = func(ci, idx int) {
+			if cs.Password {
+				if idx == 0 {
+					return
+				}
+				idx--
+			}
+			calls[ci][idx] = vrt.Step()
+		}
 		// final read-out of every key by a fresh connection, after all clients
 		// finished: part of the history (it exposes partially applied commands
 		// whose replies alone look consistent)
@@ -136,6 +165,9 @@ func c16Explorer(cs c16Case, bound int) *sched.Explorer {
 			cl, o := sched.Dial(":6379")
 			if o.Status != "ok" {
 				return
+			}
+			if cs.Password {
+				cl.Do("AUTH", c16Pass)
 			}
 			for _, key := range []string{"k", "j"} {
 				st := vrt.Step()
@@ -231,6 +263,19 @@ func c16Run(c *fw.Ctx) {
 			}
 		}
 	}
+	// the same pairs on a server that requires a password (every client AUTHs first):
+	// the path a command takes must not depend on how the connection got authorized
+	var pairsPw []scen
+	for _, store := range []string{"reference", "example"} {
+		for i, a := range names {
+			for _, b := range names[i:] {
+				if store == "example" && !(a == "INCR" || a == "APPEND" || b == "SETNX" || b == "MSETNX") {
+					continue // the example store: the update-heavy pairs only
+				}
+				pairsPw = append(pairsPw, scen{c16Case{Store: store, Password: true, Ops: [][][]string{{variant(kinds[a], 0)}, {variant(kinds[b], 1)}}}, store + "|requirepass|" + a + "+" + b})
+			}
+		}
+	}
 	for i, a := range names {
 		for j, b := range names[i:] {
 			for _, d := range names[i+j:] {
@@ -261,7 +306,7 @@ func c16Run(c *fw.Ctx) {
 		}
 		return true
 	}
-	if !phase("p1_pairs_bound2", pairs, 2) || !c.Thorough() {
+	if !phase("p1_pairs_bound2", pairs, 2) || !phase("p1_pairs_requirepass_bound2", pairsPw, 2) || !c.Thorough() {
 		return
 	}
 	_ = phase("p2_pairs_bound3", pairs, 3) &&
@@ -317,7 +362,7 @@ func init() {
 	fw.Register(&fw.Prop{
 		ID:          "C16",
 		Level:       "model_checking",
-		Rule:        "for every unordered pair of operation kinds from {GET, SET, SETNX, GETSET, INCR, DECRBY, APPEND, MSETNX, DEL} (thorough: also triples, and pairs followed by reads): 2 (3) clients issue them concurrently on one shared key (MSETNX over two keys, one shared), initial state absent or '1', through the real accept loop and connection goroutines, against (a) a reference store whose primitives are atomic steps each preceded by a scheduling point and (b) the instrumented example store (sync.Map operations are scheduling points); every schedule within deviation bound 2; thorough continues in phases, each complete only when its <phase>_done counter equals <phase>_scenarios: pairs at bound 3, pairs followed by a read on each side at bound 2, triples (reference store) at bound 2, pairs at bound 4, pairs+reads at bound 3, triples at bound 3; each complete execution yields a client-side history (invocation/response stamped with the scheduler's step counter) to which a final read-out of every key by a fresh connection is appended; porcupine checks the whole history for linearizability against the Redis model. A scenario is non-trivial when its schedules produce more than one distinct reply vector.",
+		Rule:        "for every unordered pair of operation kinds from {GET, SET, SETNX, GETSET, INCR, DECRBY, APPEND, MSETNX, DEL} (thorough: also triples, and pairs followed by reads): 2 (3) clients issue them concurrently on one shared key (MSETNX over two keys, one shared), initial state absent or '1' (and once more on a server with requirepass, every client sending AUTH first), through the real accept loop and connection goroutines, against (a) a reference store whose primitives are atomic steps each preceded by a scheduling point and (b) the instrumented example store (sync.Map operations are scheduling points); every schedule within deviation bound 2; thorough continues in phases, each complete only when its <phase>_done counter equals <phase>_scenarios: pairs at bound 3, pairs followed by a read on each side at bound 2, triples (reference store) at bound 2, pairs at bound 4, pairs+reads at bound 3, triples at bound 3; each complete execution yields a client-side history (invocation/response stamped with the scheduler's step counter) to which a final read-out of every key by a fresh connection is appended; porcupine checks the whole history for linearizability against the Redis model. A scenario is non-trivial when its schedules produce more than one distinct reply vector.",
 		Assumptions: []string{"sequentially consistent interleavings", "histories of more than 3 clients or 2 operations per client are not explored"},
 		Run:         c16Run,
 		Replay:      c16Replay,
